@@ -163,10 +163,14 @@ def make_field(rng, n, n_pol, noise_kind, real=False):
 
 
 def make_drive(rng, n, Vpi):
-    kinds = ["random", "sine", "const", "bits", "ramp", "pedestal"]
+    kinds = ["random", "sine", "const", "bits", "ramp", "pedestal", "fft_residue"]
     if 0.1 <= Vpi <= 100:
         kinds += ["int_levels", "bool_levels"]                   # drives in volts, not relative to Vpi
     kind = str(rng.choice(kinds))
+    if kind == "fft_residue":     # a real voltage that went through an FFT-based shaping filter: complex dtype, imaginary part ~1e-16 V (what DAC(..., 'gaussian') returns)
+        base = Vpi * rng.uniform(0.1, 2) * np.sin(2 * np.pi * rng.uniform(0.01, 0.4) * np.arange(n) + rng.uniform(0, 6))
+        u = np.fft.ifft(np.fft.fft(base) * np.exp(-(6 * np.fft.fftfreq(n)) ** 2))          # a real, even filter: the imaginary part left is rounding only
+        return kind, (u if np.iscomplexobj(u) and n > 1 else base)
     if kind == "pedestal":                                       # a small modulation riding on a huge offset
         u = Vpi * (float(10 ** rng.uniform(2, 7)) + rng.uniform(0.1, 2) * np.sin(2 * np.pi * rng.uniform(0.01, 0.4) * np.arange(n)))
     elif kind == "random":
